@@ -180,6 +180,20 @@ theorem credential_only_to_its_host (opts : List Opt) (stripped : Bool) (kept : 
   rw [hc] at this
   exact (attach_iff opts s.url c).mp this.symm
 
+/-- the positive half for EVERY request, not only the init request: whenever the procedure sends a
+request — init, poll, any redirect hop — to a URL whose host name has a non-empty credential in force
+(the last `WithAuthentication` for that host), that request carries exactly that credential.  With
+`credential_only_to_its_host` this is "attached exactly when the request's host equals the
+configured location's host". -/
+theorem credential_to_every_request_of_its_host (opts : List Opt) (stripped : Bool) (kept : List Str)
+    (tickets : List (Str × List Nat)) (toks : Str → Option (List Str)) (script : Str → Nat → List Resp)
+    (f : FlowResult) (hf : f ∈ (fetch false (applyOptions opts) stripped kept tickets toks script).flows)
+    (s : Sent) (hs : s ∈ f.sent) (c : Cred) (hc : c ≠ []) (pre post : List Opt)
+    (ho : opts = pre ++ .withAuth s.url.host c :: post) (hlast : ∀ c', Opt.withAuth s.url.host c' ∉ post) :
+    s.auth = some c := by
+  rw [(every_request_through_attach (applyOptions opts) stripped kept tickets toks script f hf s hs).1]
+  exact (attach_iff opts s.url c).mpr ⟨hc, pre, post, ho, hlast⟩
+
 /-- Third parties the caller asked to ignore are never contacted on their own account: a flow
 is started only for a ticket of a location that is not ignored, and every URL requested in a
 flow is that location's init URL or a URL the (non-ignored) third party itself supplied in a
@@ -330,6 +344,11 @@ example :
       (fun _ _ => [.json { discharge := ['d'] }])
     r.flows.map (fun f => f.loc) = [wLoc] ∧ r.header = flyV1Prefix ++ ['k', ',', 'd'] ∧ r.failed = false := by decide
 
+/-- non-vacuity of `credential_to_every_request_of_its_host`: in the `wScript` run the three requests to
+host `t` (init, two polls) all carry `S`; the hypotheses hold with `pre = post = []` -/
+example : ∀ s ∈ (flow false wCfg wLoc wScript).1, s.url.host = ['t'] → s.auth = some ['S'] := by decide
+example : ([.withAuth ['t'] ['S']] : List Opt) = [] ++ .withAuth ['t'] ['S'] :: [] ∧ (['S'] : Cred) ≠ [] := by decide
+
 end examples
 
 end Macaroon.Props.C20
@@ -354,3 +373,4 @@ end Macaroon.Props.C20
 #print axioms Macaroon.Props.C20.exParts_wf
 #print axioms Macaroon.Props.C20.case_and_trailing_dot_not_folded
 #print axioms Macaroon.Props.C20.in_place_header_leaks_to_subdomain
+#print axioms Macaroon.Props.C20.credential_to_every_request_of_its_host
